@@ -154,6 +154,13 @@ Theorem sites_within_sequence : forall r exc s j, In j (sites r exc s) -> (j <= 
 Proof. exact sites_le_length. Qed.
 Print Assumptions sites_within_sequence.
 
+(* every digest product is a contiguous substring of the protein and satisfies the limits *)
+Theorem digest_products_are_substrings_within_limits : forall wt water lim r exc nf s p,
+  In p (cleave wt water lim r exc nf s) ->
+  (exists u v, s = u ++ p ++ v) /\ keep wt water lim p = true.
+Proof. exact cleave_products_substrings. Qed.
+Print Assumptions digest_products_are_substrings_within_limits.
+
 From MoPep Require Gen.Py_AminoAcidSeqRecord.
 From MoPep Require Import Model.PyRt Proofs.Py2CoqDigestProofs.
 
